@@ -1,7 +1,964 @@
-//! C01: correspondence + oracle runs (sub-commands `c01` / `c01-*`).
+//! C01 (and the engine shared with C03 / C12-runs / C17): a system of two TCP endpoints A and B
+//! built from the REAL `Tcb`, plus raw segment injection.  One op per text line (the same lines
+//! drive the Lean model, `Driver/C01.lean`); after every op the result and a canonical dump of
+//! the addressed side (everything `Tcb::verif_snapshot` shows) are printed.
+//!
+//! Ops: `open X iss mtu` · `listen X iss mtu` · `write X len seed` · `writehex X hex` ·
+//! `read X` · `tick X ms` · `emit X` · `deliver X i` · `inject X ctl seq ack wnd len seed` ·
+//! `injecthex X ctl seq ack wnd hex` ·
+//! `close X` · `abort X` · `drop X`.
+//!
+//! Native oracles (independent of the model, evaluated on the real code):
+//!  * C01 prefix: bytes returned by `receive()` on one side are a prefix of the bytes passed to
+//!    `send()` on the other, at every step, in both directions;
+//!  * C01 convergence (after the fair, loss-free phase): everything submitted was delivered
+//!    exactly once, both retransmission queues are empty, both sides are silent;
+//!  * C17 no panic; C17 window (new data stays left of SND.UNA+SND.WND); C17 unacceptable
+//!    segments are no-ops (state, RCV.NXT, buffered data, reorder queue, send state).
+use elvis_core::protocols::ipv4::Ipv4Address;
+use elvis_core::protocols::tcp::verif::*;
+use elvis_core::protocols::{Endpoint, Endpoints};
+use elvis_core::Message;
 use hcommon::*;
+use std::time::Duration;
+
+pub const A_PORT: u16 = 0xcafe;
+pub const B_PORT: u16 = 0xdead;
+
+#[derive(Clone, Copy, PartialEq, Eq, Debug)]
+pub enum SideId {
+    A,
+    B,
+}
+impl SideId {
+    pub fn peer(self) -> SideId {
+        match self {
+            SideId::A => SideId::B,
+            SideId::B => SideId::A,
+        }
+    }
+    pub fn port(self) -> u16 {
+        match self {
+            SideId::A => A_PORT,
+            SideId::B => B_PORT,
+        }
+    }
+    pub fn addr(self) -> Ipv4Address {
+        match self {
+            SideId::A => Ipv4Address::new([10, 0, 0, 1]),
+            SideId::B => Ipv4Address::new([10, 0, 0, 2]),
+        }
+    }
+    pub fn name(self) -> &'static str {
+        match self {
+            SideId::A => "A",
+            SideId::B => "B",
+        }
+    }
+    pub fn ids(self) -> Endpoints {
+        Endpoints {
+            local: Endpoint { address: self.addr(), port: self.port() },
+            remote: Endpoint { address: self.peer().addr(), port: self.peer().port() },
+        }
+    }
+}
+
+// ---------------------------------------------------------------------------------------------
+// canonical printing (must match Driver/C01.lean character for character)
+// ---------------------------------------------------------------------------------------------
+pub fn fnv(b: &[u8]) -> u64 {
+    let mut h: u64 = 0xcbf29ce484222325;
+    for x in b {
+        h = (h ^ (*x as u64)).wrapping_mul(0x100000001b3);
+    }
+    h
+}
+pub fn full(b: &[u8]) -> String {
+    format!("{}:{:016x}", b.len(), fnv(b))
+}
+pub fn cheap(b: &[u8]) -> String {
+    let n = b.len();
+    if n <= 64 {
+        full(b)
+    } else {
+        let mut v = b[..32].to_vec();
+        v.extend_from_slice(&b[n - 32..]);
+        format!("{}:{:016x}", n, fnv(&v))
+    }
+}
+/// payload generator shared with the model driver
+pub fn gen_bytes(len: usize, seed: u64) -> Vec<u8> {
+    let mut x = seed as u32;
+    let mut v = Vec::with_capacity(len);
+    for _ in 0..len {
+        x = x.wrapping_mul(1103515245).wrapping_add(12345);
+        v.push((x >> 16) as u8);
+    }
+    v
+}
+pub fn hdr_str(h: &TcpHeader) -> String {
+    format!(
+        "{}.{}.{}.{}.{}.{}.{}.{}.{}",
+        h.src_port,
+        h.dst_port,
+        h.seq,
+        h.ack,
+        h.data_offset,
+        u8::from(h.ctl),
+        h.wnd,
+        h.urg,
+        h.checksum
+    )
+}
+fn list_str<T>(xs: &[T], f: impl Fn(&T) -> String, w: impl Fn(&T) -> u64) -> String {
+    let n = xs.len();
+    if n <= 6 {
+        format!("[{}]", xs.iter().map(&f).collect::<Vec<_>>().join(","))
+    } else {
+        let mut agg: u64 = 0;
+        for (i, x) in xs.iter().enumerate() {
+            agg = (agg + (i as u64 + 1) * w(x)) % 4294967296;
+        }
+        format!(
+            "[n={} agg={} {},..,{}]",
+            n,
+            agg,
+            xs[..3].iter().map(&f).collect::<Vec<_>>().join(","),
+            xs[n - 3..].iter().map(&f).collect::<Vec<_>>().join(",")
+        )
+    }
+}
+fn seg_weight(h: &TcpHeader, len: usize) -> u64 {
+    h.seq as u64 + h.ack as u64 + u8::from(h.ctl) as u64 + len as u64
+}
+fn emitted_str(segs: &[(TcpHeader, Vec<u8>)]) -> String {
+    let mut hx = 0u64;
+    for s in segs {
+        hx ^= fnv(&s.1);
+    }
+    format!(
+        "{} hx={:016x}",
+        list_str(segs, |s| format!("{}/{}", hdr_str(&s.0), full(&s.1)), |s| seg_weight(&s.0, s.1.len())),
+        hx
+    )
+}
+pub fn state_str(s: State) -> &'static str {
+    match s {
+        State::SynSent => "SynSent",
+        State::SynReceived => "SynReceived",
+        State::Established => "Established",
+        State::FinWait1 => "FinWait1",
+        State::FinWait2 => "FinWait2",
+        State::CloseWait => "CloseWait",
+        State::Closing => "Closing",
+        State::LastAck => "LastAck",
+        State::TimeWait => "TimeWait",
+    }
+}
+fn ms(d: Duration) -> u128 {
+    d.as_millis()
+}
+pub fn tcb_str(s: &VerifTcbSnapshot) -> String {
+    let rtx = list_str(
+        &s.retransmit,
+        |x| format!("{}/{}/{}", hdr_str(&x.0), cheap(&x.1), x.2 as u8),
+        |x| seg_weight(&x.0, x.1.len()) + x.2 as u64,
+    );
+    let one = list_str(&s.oneshot, hdr_str, |h| h.seq as u64 + h.ack as u64 + u8::from(h.ctl) as u64);
+    let heap = list_str(
+        &s.incoming_segments,
+        |x| format!("{}/{}", hdr_str(&x.0), cheap(&x.1)),
+        |x| seg_weight(&x.0, x.1.len()),
+    );
+    let tw = match s.time_wait {
+        None => "-".to_string(),
+        Some(d) => ms(d).to_string(),
+    };
+    format!(
+        "st={} init={} mtu={} snd={},{},{},{},{},{} rcv={},{},{} ot={} rtx={} one={} heap={} it={} rto={} tw={}",
+        state_str(s.state),
+        if s.initiation_listen { "L" } else { "O" },
+        s.mtu,
+        s.snd.0,
+        s.snd.1,
+        s.snd.2,
+        s.snd.3,
+        s.snd.4,
+        s.snd.5,
+        s.rcv.0,
+        s.rcv.1,
+        s.rcv.2,
+        cheap(&s.outgoing_text),
+        rtx,
+        one,
+        heap,
+        cheap(&s.incoming_text),
+        ms(s.retransmission_timeout),
+        tw
+    )
+}
+
+// ---------------------------------------------------------------------------------------------
+// the system
+// ---------------------------------------------------------------------------------------------
+#[derive(Default)]
+pub struct Side {
+    pub tcb: Option<Tcb>,
+    pub listen: Option<(u32, u16)>,
+    pub submitted: Vec<u8>,
+    pub delivered: Vec<u8>,
+    /// highest end (relative to ISS, in bytes of sequence space) of any data segment emitted
+    pub max_rel_end: u64,
+    /// the TCB was deleted (reset, final ACK or TIME-WAIT expiry)
+    pub released: bool,
+    pub aborted: bool,
+}
+
+pub struct Oracles {
+    /// C01 prefix oracle
+    pub prefix: bool,
+    /// C17 window / unacceptable-segment oracles
+    pub c17: bool,
+}
+
+pub struct Exec {
+    pub a: Side,
+    pub b: Side,
+    pub history: Vec<(TcpHeader, Vec<u8>)>,
+    /// set after a panic: the TCB's value is undefined, the case ends
+    pub dead: bool,
+    /// a forged segment that is not provably a no-op was injected: stream oracles are off
+    pub tainted: bool,
+    pub oracles: Oracles,
+    /// result of the last op (for generators)
+    pub last: String,
+    /// indices of the history elements appended by the last op
+    pub last_emitted: Vec<usize>,
+    /// snapshot of each side after the last op that addressed it (= before the next one)
+    cache: [Option<VerifTcbSnapshot>; 2],
+}
+
+thread_local! {
+    /// oracle failures already recorded per ident (a run keeps at most 3 replays per ident)
+    static SEEN: std::cell::RefCell<std::collections::HashMap<String, u32>> = std::cell::RefCell::new(Default::default());
+}
+/// record an oracle failure, at most three per ident and run (the rest is only counted)
+pub fn fail(out: &mut Out, what: &str, ident: &str) {
+    let n = SEEN.with(|s| {
+        let mut s = s.borrow_mut();
+        let e = s.entry(ident.to_string()).or_insert(0);
+        *e += 1;
+        *e
+    });
+    out.count(&format!("fail.{}", ident.chars().take(60).collect::<String>()));
+    if n <= 3 {
+        out.fail(what, ident);
+    } else {
+        out.count("oracle_failures");
+    }
+}
+
+pub fn panic_site(p: &PanicInfo) -> (String, String) {
+    // (model string, function) from file + source line text
+    let text = source_line_text(&p.file, p.line);
+    let in_tcb = p.file.ends_with("tcp/tcb.rs");
+    let r = |k: &str, f: &str| (k.to_string(), f.to_string());
+    if in_tcb && text.starts_with("let max_bytes = self.snd.wnd as usize - queued_bytes;") {
+        r("panic:sub-overflow:segments.max_bytes", "Tcb::segments")
+    } else if in_tcb && text.starts_with("let max_segment_length = (self.mtu - SPACE_FOR_HEADERS) as usize;") {
+        r("panic:sub-overflow:segments.max_segment_length", "Tcb::segments")
+    } else if in_tcb && text.starts_with(".expect(\"Unexpectedly large MTU and message\")") {
+        r("panic:expect:segments.build", "Tcb::segments")
+    } else if in_tcb && text.starts_with("assert!(") {
+        r("panic:assert:process_segment.text_in_window", "Tcb::process_segment")
+    } else if in_tcb && text.starts_with("let unreceived = text_len - already_received;") {
+        r("panic:sub-overflow:process_segment.unreceived", "Tcb::process_segment")
+    } else if in_tcb && text.starts_with("let space_available = self.rcv.wnd as u32 - self.incoming.text.len() as u32;") {
+        r("panic:sub-overflow:process_segment.space_available", "Tcb::process_segment")
+    } else if in_tcb && text.starts_with("text.slice(already_received as usize..(already_received + accept) as usize);") {
+        r("panic:add-overflow:process_segment.slice_end", "Tcb::process_segment")
+    } else if p.file.ends_with("message.rs") && text.starts_with("assert!(start + len.unwrap_or(0) <= self.len());") {
+        r("panic:assert:process_segment.slice", "Tcb::process_segment")
+    } else if in_tcb && text.starts_with("let seg_len = data_len + fin as u32 + syn as u32;") {
+        r("panic:add-overflow:is_seq_ok.seg_len", "Tcb::is_seq_ok")
+    } else if in_tcb && text.starts_with("let segment = self.incoming.segments.pop().unwrap();") {
+        r("panic:unwrap:segment_arrives.pop", "Tcb::segment_arrives")
+    } else if in_tcb && text.starts_with(".unwrap();") {
+        r("panic:unwrap:enqueue.build", "Tcb::enqueue")
+    } else {
+        (
+            format!("panic:other:{}:{}", p.file.rsplit('/').next().unwrap_or(""), text.replace(' ', "_")),
+            "?".to_string(),
+        )
+    }
+}
+
+fn parse_side(s: &str) -> Option<SideId> {
+    match s {
+        "A" => Some(SideId::A),
+        "B" => Some(SideId::B),
+        _ => None,
+    }
+}
+
+/// is the segment one that a conforming receiver must treat as unacceptable?  Written from
+/// RFC 9293 3.10.7.3 / 3.10.7.4 (Table 6) with the receive window widened by one on the left
+/// (RCV.NXT-1), the acceptance rule this implementation documents for keep-alives
+/// (draft-gont-tcpm-tcp-seq-validation); plain 64-bit offset arithmetic.
+pub fn unacceptable(state: State, rcv_nxt: u32, rcv_wnd: u16, h: &TcpHeader, len: usize) -> bool {
+    if state == State::SynSent {
+        return !h.ctl.syn() && !h.ctl.rst();
+    }
+    let l = len as u64 + h.ctl.syn() as u64 + h.ctl.fin() as u64;
+    let first = h.seq.wrapping_sub(rcv_nxt.wrapping_sub(1)) as u64; // distance from RCV.NXT-1
+    if rcv_wnd == 0 {
+        if l > 0 {
+            return true;
+        }
+        return first > 1;
+    }
+    let last = first + l.max(1) - 1;
+    first > rcv_wnd as u64 && last < (1u64 << 32)
+}
+
+impl Exec {
+    pub fn new(oracles: Oracles) -> Self {
+        Exec {
+            a: Side::default(),
+            b: Side::default(),
+            history: vec![],
+            dead: false,
+            tainted: false,
+            oracles,
+            last: String::new(),
+            last_emitted: vec![],
+            cache: [None, None],
+        }
+    }
+    pub fn side(&self, x: SideId) -> &Side {
+        match x {
+            SideId::A => &self.a,
+            SideId::B => &self.b,
+        }
+    }
+    pub fn side_mut(&mut self, x: SideId) -> &mut Side {
+        match x {
+            SideId::A => &mut self.a,
+            SideId::B => &mut self.b,
+        }
+    }
+    /// snapshot of side x (cached: only ops addressed to x change it)
+    pub fn snap(&self, x: SideId) -> Option<VerifTcbSnapshot> {
+        self.cache[x as usize].clone()
+    }
+    pub fn snap_ref(&self, x: SideId) -> Option<&VerifTcbSnapshot> {
+        self.cache[x as usize].as_ref()
+    }
+    fn side_str(&self, x: SideId) -> String {
+        let sd = self.side(x);
+        match (self.snap_ref(x), sd.listen) {
+            (Some(t), _) => tcb_str(t),
+            (None, Some((iss, mtu))) => format!("listen({},{})", iss, mtu),
+            (None, None) => "none".into(),
+        }
+    }
+
+    /// a segment arrives at side x, as `Tcp::demux` would route it
+    fn arrive(&mut self, x: SideId, h: TcpHeader, text: Vec<u8>) -> Result<String, PanicInfo> {
+        let seg = Segment::new(h, Message::new(text.clone()));
+        let hist_len = self.history.len();
+        let sd = self.side_mut(x);
+        if let Some(tcb) = sd.tcb.as_mut() {
+            match catch(|| tcb.segment_arrives(seg))? {
+                SegmentArrivesResult::Ok => Ok("ok".into()),
+                SegmentArrivesResult::Close => {
+                    sd.tcb = None;
+                    sd.listen = None;
+                    sd.released = true;
+                    Ok("close".into())
+                }
+            }
+        } else if let Some((iss, mtu)) = sd.listen {
+            match catch(|| segment_arrives_listen(seg, x.addr(), x.peer().addr(), iss, mtu))? {
+                None => Ok("none".into()),
+                Some(ListenResult::Tcb(t)) => {
+                    sd.tcb = Some(t);
+                    Ok("tcb".into())
+                }
+                Some(ListenResult::Response(r)) => {
+                    self.history.push((r, vec![]));
+                    self.last_emitted.push(hist_len);
+                    Ok(format!("response {} {}", hist_len, hdr_str(&r)))
+                }
+            }
+        } else {
+            match catch(|| segment_arrives_closed(h, text.len() as u32, x.addr(), x.peer().addr()))? {
+                None => Ok("none".into()),
+                Some(r) => {
+                    self.history.push((r, vec![]));
+                    self.last_emitted.push(hist_len);
+                    Ok(format!("response {} {}", hist_len, hdr_str(&r)))
+                }
+            }
+        }
+    }
+
+    /// execute one op line; emits the (op, answer) pair and evaluates the oracles
+    pub fn apply(&mut self, line: &str, out: &mut Out) {
+        let w: Vec<&str> = line.split_whitespace().collect();
+        self.last_emitted.clear();
+        if self.dead {
+            self.last = "dead".into();
+            return out.line(line, "dead");
+        }
+        let bad = |me: &mut Self, out: &mut Out| {
+            me.last = "bad-op".into();
+            out.line(line, "bad-op")
+        };
+        if w.len() < 2 {
+            return bad(self, out);
+        }
+        let Some(x) = parse_side(w[1]) else { return bad(self, out) };
+        let num = |s: &str| s.parse::<u64>().ok();
+        let before = self.cache[x as usize].take();
+        let mut injected: Option<(TcpHeader, usize)> = None;
+        let res: Result<String, PanicInfo> = match w.as_slice() {
+            ["open", _, iss, mtu] => {
+                let (Some(iss), Some(mtu)) = (num(iss), num(mtu)) else { return bad(self, out) };
+                let r = catch(|| Tcb::open(x.ids(), iss as u32, mtu as u16));
+                r.map(|t| {
+                    let sd = self.side_mut(x);
+                    sd.tcb = Some(t);
+                    sd.released = false;
+                    "ok".to_string()
+                })
+            }
+            ["listen", _, iss, mtu] => {
+                let (Some(iss), Some(mtu)) = (num(iss), num(mtu)) else { return bad(self, out) };
+                self.side_mut(x).listen = Some((iss as u32, mtu as u16));
+                Ok("ok".into())
+            }
+            ["deliver", _, i] => {
+                let Some(i) = num(i) else { return bad(self, out) };
+                match self.history.get(i as usize).cloned() {
+                    None => Ok("noseg".into()),
+                    Some((h, t)) => {
+                        injected = Some((h, t.len()));
+                        self.arrive(x, h, t)
+                    }
+                }
+            }
+            ["inject", _, ctl, seq, ack, wnd, rest @ ..] | ["injecthex", _, ctl, seq, ack, wnd, rest @ ..] => {
+                let (Some(ctl), Some(seq), Some(ack), Some(wnd)) = (num(ctl), num(seq), num(ack), num(wnd)) else {
+                    return bad(self, out);
+                };
+                let payload: Vec<u8> = match (w[0], rest) {
+                    ("inject", [len, seed]) => {
+                        let (Some(len), Some(seed)) = (num(len), num(seed)) else { return bad(self, out) };
+                        gen_bytes(len as usize, seed)
+                    }
+                    ("injecthex", [h]) if *h == "-" || (h.len() % 2 == 0 && h.bytes().all(|c| c.is_ascii_digit() || (b'a'..=b'f').contains(&c))) => unhex(h),
+                    _ => return bad(self, out),
+                };
+                let len = payload.len() as u64;
+                let h = TcpHeader {
+                    src_port: x.peer().port(),
+                    dst_port: x.port(),
+                    seq: seq as u32,
+                    ack: ack as u32,
+                    data_offset: 5,
+                    ctl: Control::from((ctl % 64) as u8),
+                    wnd: wnd as u16,
+                    urg: 0,
+                    checksum: 0,
+                };
+                injected = Some((h, len as usize));
+                // forged segments that are not provably no-ops switch the stream oracles off
+                let noop = match &before {
+                    Some(s) => s.state != State::SynSent && unacceptable(s.state, s.rcv.1, s.rcv.2, &h, len as usize),
+                    None => false,
+                };
+                if !noop {
+                    self.tainted = true;
+                }
+                self.arrive(x, h, payload)
+            }
+            ["drop", _] => {
+                let sd = self.side_mut(x);
+                sd.tcb = None;
+                sd.listen = None;
+                Ok("ok".into())
+            }
+            _ => {
+                if self.side(x).tcb.is_none() {
+                    Ok("notcb".into())
+                } else {
+                    let hist_len = self.history.len();
+                    let sd = match x {
+                        SideId::A => &mut self.a,
+                        SideId::B => &mut self.b,
+                    };
+                    let history = &mut self.history;
+                    let last_emitted = &mut self.last_emitted;
+                    let tcb = sd.tcb.as_mut().unwrap();
+                    let write = |tcb: &mut Tcb, sd_sub: &mut Vec<u8>, bytes: Vec<u8>| {
+                        let accepted = matches!(tcb.status(), State::SynSent | State::SynReceived | State::Established);
+                        let b2 = bytes.clone();
+                        let r = catch(|| tcb.send(Message::new(b2)));
+                        if r.is_ok() && accepted {
+                            sd_sub.extend_from_slice(&bytes);
+                        }
+                        r.map(|_| "ok".to_string())
+                    };
+                    match w.as_slice() {
+                        ["write", _, len, seed] => {
+                            let (Some(len), Some(seed)) = (num(len), num(seed)) else { return bad(self, out) };
+                            write(tcb, &mut sd.submitted, gen_bytes(len as usize, seed))
+                        }
+                        ["writehex", _, h] => write(tcb, &mut sd.submitted, unhex(h)),
+                        ["read", _] => catch(|| tcb.receive().to_vec()).map(|v| {
+                            sd.delivered.extend_from_slice(&v);
+                            format!("read {}", full(&v))
+                        }),
+                        ["tick", _, t] => {
+                            let Some(t) = num(t) else { return bad(self, out) };
+                            catch(|| tcb.advance_time(Duration::from_millis(t))).map(|r| match r {
+                                AdvanceTimeResult::Ignore => "ignore".to_string(),
+                                AdvanceTimeResult::CloseConnection => {
+                                    sd.tcb = None;
+                                    sd.listen = None;
+                                    sd.released = true;
+                                    "close".to_string()
+                                }
+                            })
+                        }
+                        ["emit", _] => match catch(|| tcb.segments()) {
+                            Err(p) => Err(p),
+                            Ok(segs) => {
+                                let v: Vec<(TcpHeader, Vec<u8>)> = segs.iter().map(|s| (s.header, s.text.to_vec())).collect();
+                                let s = format!("emit {} {}", hist_len, emitted_str(&v));
+                                for (k, e) in v.into_iter().enumerate() {
+                                    history.push(e);
+                                    last_emitted.push(hist_len + k);
+                                }
+                                Ok(s)
+                            }
+                        },
+                        ["close", _] => catch(|| tcb.close()).map(|r| {
+                            match r {
+                                CloseResult::Ok => "ok",
+                                CloseResult::ConnectionClosing => "closing",
+                                CloseResult::CloseConnection => "closeconn",
+                            }
+                            .to_string()
+                        }),
+                        ["abort", _] => catch(|| tcb.abort()).map(|_| {
+                            sd.aborted = true;
+                            "ok".to_string()
+                        }),
+                        _ => return bad(self, out),
+                    }
+                }
+            }
+        };
+        out.count(&format!("op.{}", w[0]));
+        self.cache[x as usize] = self.side(x).tcb.as_ref().and_then(|t| catch(|| t.verif_snapshot()).ok());
+        match res {
+            Ok(r) => {
+                out.count(&format!("res.{}.{}", w[0], r.split(' ').next().unwrap_or("")));
+                if let Some(s) = self.snap_ref(x) {
+                    out.count(&format!("state.{}", state_str(s.state)));
+                }
+                self.last = r.clone();
+                out.line(line, &format!("{} | {} {}", r, x.name(), self.side_str(x)));
+                self.check_oracles(x, &w, before, injected, out);
+            }
+            Err(p) => {
+                let (model, func) = panic_site(&p);
+                let text = source_line_text(&p.file, p.line);
+                out.count(&format!("err.{}", model));
+                self.last = format!("err {}", model);
+                out.line(line, &self.last.clone());
+                self.dead = true;
+                let st = before.as_ref().map(|s| state_str(s.state)).unwrap_or("-");
+                fail(out, 
+                    &format!("`{}` panicked in state {}: {} ({}:{} `{}`)", line, st, p.msg, p.file, p.line, text),
+                    &format!("panic {} {}", func, text),
+                );
+            }
+        }
+    }
+
+    fn check_oracles(&mut self, x: SideId, w: &[&str], before: Option<VerifTcbSnapshot>, injected: Option<(TcpHeader, usize)>, out: &mut Out) {
+        let after = self.cache[x as usize].take();
+        self.check_oracles_inner(x, w, before, injected, out, &after);
+        self.cache[x as usize] = after;
+    }
+
+    fn check_oracles_inner(&mut self, x: SideId, w: &[&str], before: Option<VerifTcbSnapshot>, injected: Option<(TcpHeader, usize)>, out: &mut Out, after: &Option<VerifTcbSnapshot>) {
+        // ---- C01 prefix ----
+        if self.oracles.prefix && !self.tainted && w[0] == "read" {
+            let got = &self.side(x).delivered;
+            let sent = &self.side(x.peer()).submitted;
+            if !sent.starts_with(got) {
+                let k = got.iter().zip(sent.iter()).take_while(|(a, b)| a == b).count();
+                fail(out, 
+                    &format!(
+                        "bytes delivered to {} are not a prefix of the bytes submitted by {}: {} delivered, {} submitted, first difference at offset {}",
+                        x.name(), x.peer().name(), got.len(), sent.len(), k
+                    ),
+                    "nonprefix",
+                );
+            }
+        }
+        if !self.oracles.c17 {
+            return;
+        }
+        // ---- C17 window: new data only inside [SND.UNA, SND.UNA + SND.WND) (+1 for our SYN) ----
+        if w[0] == "emit" && !self.side(x).aborted {
+            if let Some(s) = after {
+                let (una, wnd, iss) = (s.snd.0, s.snd.2 as u64, s.snd.5);
+                let syn_unacked = (una == iss) as u64;
+                let emitted: Vec<usize> = self.last_emitted.clone();
+                for i in emitted {
+                    let (h, tlen) = (self.history[i].0, self.history[i].1.len());
+                    if tlen == 0 {
+                        continue;
+                    }
+                    let rel_end = h.seq.wrapping_sub(iss) as u64 + tlen as u64;
+                    if rel_end > self.side(x).max_rel_end {
+                        self.side_mut(x).max_rel_end = rel_end;
+                        let off_end = h.seq.wrapping_sub(una) as u64 + tlen as u64;
+                        if off_end > wnd + syn_unacked {
+                            fail(out, 
+                                &format!(
+                                    "new data segment seq={} len={} ends {} past SND.UNA={} but the peer's window is {}",
+                                    h.seq, tlen, off_end, una, wnd
+                                ),
+                                "window-overrun",
+                            );
+                        }
+                    }
+                }
+            }
+        }
+        // ---- C17 unacceptable segments are no-ops ----
+        if let (Some((h, len)), Some(b)) = (injected, before) {
+            if unacceptable(b.state, b.rcv.1, b.rcv.2, &h, len) {
+                out.count("unacceptable_segments");
+                let st = state_str(b.state);
+                match after {
+                    None => fail(out, 
+                        &format!("unacceptable segment `{}` (seq={} RCV.NXT={} wnd={}) deleted the TCB in state {}", w.join(" "), h.seq, b.rcv.1, b.rcv.2, st),
+                        &format!("unacceptable-segment tcb-deleted in {}", st),
+                    ),
+                    Some(a) => {
+                        let mut what = vec![];
+                        if a.state != b.state {
+                            what.push("state-changed");
+                        }
+                        if a.rcv != b.rcv || a.incoming_text != b.incoming_text {
+                            what.push("data-changed");
+                        }
+                        // the reorder queue as a multiset (its array order may legitimately change)
+                        let key = |v: &Vec<(TcpHeader, Vec<u8>)>| {
+                            let mut k: Vec<(u32, u8, usize, u64)> = v.iter().map(|(h, t)| (h.seq, u8::from(h.ctl), t.len(), fnv(t))).collect();
+                            k.sort();
+                            k
+                        };
+                        if key(&a.incoming_segments) != key(&b.incoming_segments) {
+                            what.push("queued");
+                        }
+                        if a.snd != b.snd || a.retransmit != b.retransmit || a.outgoing_text != b.outgoing_text {
+                            what.push("send-state-changed");
+                        }
+                        if a.time_wait != b.time_wait {
+                            what.push("timer-changed");
+                        }
+                        for k in what {
+                            fail(out, 
+                                &format!(
+                                    "unacceptable segment `{}` (ctl={} seq={} len={} vs RCV.NXT={} RCV.WND={}) in state {}: {}",
+                                    w.join(" "), u8::from(h.ctl), h.seq, len, b.rcv.1, b.rcv.2, st, k
+                                ),
+                                &format!("unacceptable-segment {} in {}", k, st),
+                            );
+                        }
+                    }
+                }
+            }
+        }
+    }
+
+    // -----------------------------------------------------------------------------------------
+    // fair, loss-free phase and the convergence oracle (C01)
+    // -----------------------------------------------------------------------------------------
+    /// deliver everything in FIFO order until quiet, advance one RTO, repeat; then check that
+    /// everything submitted was delivered exactly once, queues are empty, both sides silent.
+    pub fn fair_phase(&mut self, pending: &mut Vec<(SideId, usize)>, out: &mut Out, max_rtos: u32, check: bool) {
+        let mut rtos = 0;
+        loop {
+            let mut guard = 0;
+            loop {
+                for x in [SideId::A, SideId::B] {
+                    if self.side(x).tcb.is_some() {
+                        self.apply(&format!("emit {}", x.name()), out);
+                        if self.dead {
+                            return;
+                        }
+                        for i in self.last_emitted.clone() {
+                            pending.push((x.peer(), i));
+                        }
+                    }
+                }
+                if pending.is_empty() {
+                    break;
+                }
+                for (to, i) in std::mem::take(pending) {
+                    self.apply(&format!("deliver {} {}", to.name(), i), out);
+                    if self.dead {
+                        return;
+                    }
+                    // responses of LISTEN/CLOSED go back to the sender
+                    for j in self.last_emitted.clone() {
+                        pending.push((to.peer(), j));
+                    }
+                }
+                for x in [SideId::A, SideId::B] {
+                    if self.side(x).tcb.is_some() {
+                        self.apply(&format!("read {}", x.name()), out);
+                    }
+                }
+                guard += 1;
+                if guard > 20000 {
+                    if check {
+                        fail(out, "fair delivery never quiesces (segments keep being exchanged)", "no-quiescence");
+                    }
+                    return;
+                }
+            }
+            for x in [SideId::A, SideId::B] {
+                if self.snap_ref(x).map_or(false, |s| !s.incoming_text.is_empty()) {
+                    self.apply(&format!("read {}", x.name()), out);
+                }
+            }
+            let data_ok = self.b.delivered == self.a.submitted && self.a.delivered == self.b.submitted;
+            let quiet = [SideId::A, SideId::B].iter().all(|x| self.snap_ref(*x).map_or(true, |s| s.retransmit.is_empty() && s.outgoing_text.is_empty()));
+            if data_ok && quiet {
+                out.count(&format!("converged_after_rtos.{}", rtos.min(9)));
+                break;
+            }
+            rtos += 1;
+            if rtos > max_rtos {
+                if check && !self.tainted {
+                    let d = |x: SideId| self.snap_ref(x).map(|s| format!("{} rtx={} unsent={} heap={}", state_str(s.state), s.retransmit.len(), s.outgoing_text.len(), s.incoming_segments.len())).unwrap_or("no TCB".into());
+                    fail(out, 
+                        &format!(
+                            "after {} loss-free RTO rounds: A submitted {} B delivered {}; B submitted {} A delivered {}; A: {}; B: {}",
+                            max_rtos, self.a.submitted.len(), self.b.delivered.len(), self.b.submitted.len(), self.a.delivered.len(), d(SideId::A), d(SideId::B)
+                        ),
+                        "no-convergence",
+                    );
+                }
+                return;
+            }
+            for x in [SideId::A, SideId::B] {
+                if self.side(x).tcb.is_some() {
+                    self.apply(&format!("tick {} 150", x.name()), out);
+                }
+            }
+        }
+        // silence: nothing is emitted any more, even after a further RTO
+        for x in [SideId::A, SideId::B] {
+            if self.side(x).tcb.is_some() {
+                self.apply(&format!("tick {} 150", x.name()), out);
+                self.apply(&format!("emit {}", x.name()), out);
+                if check && !self.tainted && !self.last_emitted.is_empty() {
+                    fail(out, &format!("{} still transmits after everything was delivered and acknowledged", x.name()), "not-silent");
+                }
+            }
+        }
+    }
+}
+
+// ---------------------------------------------------------------------------------------------
+// generator: two-endpoint schedules
+// ---------------------------------------------------------------------------------------------
+pub fn pick_isn(rng: &mut Rng) -> u32 {
+    match rng.below(5) {
+        0 | 1 => rng.next() as u32,
+        2 => (rng.below(140001) as i64 - 70000) as u32,
+        3 => (1u32 << 31).wrapping_add((rng.below(140001) as i64 - 70000) as u32),
+        _ => u32::MAX.wrapping_sub(rng.below(70000) as u32),
+    }
+}
+pub fn pick_mtu(rng: &mut Rng) -> u16 {
+    match rng.below(10) {
+        0 => 100,
+        1 => 65535,
+        2 => rng.range(100, 65535) as u16,
+        3 => rng.range(100, 200) as u16,
+        _ => rng.range(100, 1600) as u16,
+    }
+}
+fn pick_write(rng: &mut Rng, big: bool) -> usize {
+    match rng.below(16) {
+        0..=3 => 1,
+        4..=7 => rng.below(50) as usize,
+        8..=11 => rng.below(3000) as usize,
+        12..=13 => rng.below(40000) as usize,
+        14 if big => rng.range(65536, 102400) as usize,
+        _ => rng.below(9000) as usize,
+    }
+}
+
+pub struct SchedCfg {
+    pub steps: u64,
+    pub closes: bool,
+}
+
+/// one random schedule followed by the fair phase
+pub fn schedule_case(ex: &mut Exec, rng: &mut Rng, out: &mut Out, cfg: &SchedCfg) {
+    let mtu_a = pick_mtu(rng);
+    let mtu_b = if rng.chance(1, 4) { pick_mtu(rng) } else { mtu_a };
+    let (iss_a, iss_b) = (pick_isn(rng), pick_isn(rng));
+    let simultaneous = rng.chance(1, 4);
+    let early_b = rng.chance(1, 2);
+    let eager = rng.chance(1, 2);
+    // keep the number of segments per case bounded (every op dumps the whole TCB): at most
+    // ~`segs` segments' worth of data per case; the > 64 KiB writes need an MSS that allows them
+    let mss = (mtu_a.min(mtu_b) - 50) as u64;
+    let segs = if rng.chance(1, 12) { 1500 } else { 60 };
+    let budget: u64 = (segs * mss).min(300_000);
+    let big_budget = budget >= 110_000;
+    out.count(if simultaneous { "open.simultaneous" } else { "open.active_passive" });
+    ex.apply(&format!("open A {} {}", iss_a, mtu_a), out);
+    if simultaneous {
+        ex.apply(&format!("open B {} {}", iss_b, mtu_b), out);
+    } else {
+        ex.apply(&format!("listen B {} {}", iss_b, mtu_b), out);
+    }
+    let mut pending: Vec<(SideId, usize)> = vec![];
+    let mut seed = rng.next() % 1_000_000;
+    let mut written: u64 = 0;
+    for _ in 0..cfg.steps {
+        if ex.dead {
+            return;
+        }
+        for x in [SideId::A, SideId::B] {
+            if ex.side(x).tcb.is_some() && rng.chance(3, 4) {
+                ex.apply(&format!("emit {}", x.name()), out);
+                for i in ex.last_emitted.clone() {
+                    pending.push((x.peer(), i));
+                }
+                if ex.dead {
+                    return;
+                }
+            }
+        }
+        match rng.below(16) {
+            0..=6 => {
+                if !pending.is_empty() {
+                    let k = rng.below(pending.len() as u64) as usize;
+                    // mostly in order, sometimes any
+                    let k = if rng.chance(2, 3) { 0 } else { k };
+                    let (to, i) = if rng.chance(1, 6) { pending[k] } else { pending.remove(k) };
+                    ex.apply(&format!("deliver {} {}", to.name(), i), out);
+                    for j in ex.last_emitted.clone() {
+                        pending.push((to.peer(), j));
+                    }
+                }
+            }
+            7 => {
+                if !pending.is_empty() {
+                    let k = rng.below(pending.len() as u64) as usize;
+                    pending.remove(k);
+                    out.count("net.drop");
+                }
+            }
+            8 | 9 => {
+                let d = if rng.chance(1, 3) { 150 } else { 5 };
+                for x in [SideId::A, SideId::B] {
+                    if ex.side(x).tcb.is_some() {
+                        ex.apply(&format!("tick {} {}", x.name(), d), out);
+                    }
+                }
+            }
+            10 if cfg.closes && rng.chance(1, 4) => {
+                let x = if rng.chance(1, 2) { SideId::A } else { SideId::B };
+                ex.apply(&format!("close {}", x.name()), out);
+            }
+            10..=12 => {
+                let x = if rng.chance(1, 2) { SideId::A } else { SideId::B };
+                if let Some(s) = ex.snap(x) {
+                    let ok = matches!(s.state, State::SynSent | State::SynReceived | State::Established);
+                    if ok && (x == SideId::A || early_b || s.state == State::Established) && written < budget {
+                        let n = pick_write(rng, big_budget).min((budget - written) as usize);
+                        seed += 1;
+                        written += n as u64;
+                        if n > 65535 {
+                            out.count("write.over_64k");
+                        }
+                        if s.state != State::Established {
+                            out.count("write.before_established");
+                        }
+                        ex.apply(&format!("write {} {} {}", x.name(), n, seed), out);
+                    }
+                }
+            }
+            _ => {
+                if eager || rng.chance(1, 4) {
+                    for x in [SideId::A, SideId::B] {
+                        if ex.side(x).tcb.is_some() {
+                            ex.apply(&format!("read {}", x.name()), out);
+                        }
+                    }
+                }
+            }
+        }
+    }
+    if ex.dead {
+        return;
+    }
+    ex.fair_phase(&mut pending, out, 60, !cfg.closes);
+}
+
+pub const RULE: &str = "two real Tcbs (active/passive or simultaneous open, MTU 100..65535, ISNs uniform and dense near 0/2^31/2^32), random interleaving of writes 1 B..100 KB (before and after ESTABLISHED), eager/late reads, 5/150 ms ticks, deliver-any/duplicate/drop, then a loss-free phase (deliver all until quiet, advance one RTO, repeat); every op's result and the full TCB snapshot are compared with the Lean model; a case is non-trivial if it delivered application data in at least one direction; distinct = hash of its op lines";
+
+pub fn replay(args: &Args, out: &mut Out, oracles: Oracles) {
+    let mut ex = Exec::new(oracles);
+    out.begin_case(0);
+    out.mark_nontrivial();
+    for l in read_ops(args.replay.as_ref().unwrap()) {
+        if l.starts_with("case ") {
+            continue;
+        }
+        ex.apply(&l, out);
+    }
+    out.end_case();
+}
 
 pub fn run(args: &Args) {
-    eprintln!("hcore: {} not implemented yet", args.prop);
-    std::process::exit(2);
+    let mut out = Out::new(&args.out);
+    out.max_failures = 40;
+    if args.replay.is_some() {
+        replay(args, &mut out, Oracles { prefix: true, c17: true });
+        out.finish(RULE);
+        return;
+    }
+    let steps: u64 = args.extra.get("steps").and_then(|s| s.parse().ok()).unwrap_or(250);
+    let closes = args.extra.get("closes").map(|s| s == "1").unwrap_or(false);
+    let mut rng = Rng::new(args.seed);
+    for c in 0..args.cases {
+        let mut r = rng.fork();
+        let mut ex = Exec::new(Oracles { prefix: true, c17: true });
+        out.begin_case(c);
+        schedule_case(&mut ex, &mut r, &mut out, &SchedCfg { steps, closes });
+        if !ex.a.delivered.is_empty() || !ex.b.delivered.is_empty() {
+            out.mark_nontrivial();
+        }
+        out.count_n("bytes.submitted", (ex.a.submitted.len() + ex.b.submitted.len()) as u64);
+        out.end_case();
+    }
+    out.finish(RULE);
 }
